@@ -97,7 +97,7 @@ const rule = "state after at least one conversion attempt; distinct by canonical
 func Parts() []mc.Part {
 	return []mc.Part{
 		KernelPart(),
-		mc.ExplorePart("erc20", New(Variant{Name: "erc20", Ratio: "1"}), 5, 7, false, rule),
+		mc.ExplorePart("erc20", New(Variant{Name: "erc20", Ratio: "1"}), 6, 8, false, rule),
 		mc.ExplorePart("feeswap-ratio-1", New(Variant{Name: "feeswap-ratio-1", FeeSwap: true, Ratio: "1"}), 4, 5, false, rule),
 		mc.ExplorePart("feeswap-ratio-0.5", New(Variant{Name: "feeswap-ratio-0.5", FeeSwap: true, Ratio: "0.5"}), 4, 5, false, rule),
 		mc.ExplorePart("feeswap-ratio-third", New(Variant{Name: "feeswap-ratio-third", FeeSwap: true, Ratio: "0.333333333333333333"}), 4, 5, false, rule),
